@@ -109,6 +109,7 @@ pub fn gen_op(r: &mut Rng, kind: OpKind) -> Op {
             vec![li, n, r.pick(&[0u32, 1, 2]), r.pick(&[0u32, 1]), 0]
         }
         DeReal => vec![len_idx(r), 1, r.below(3), 0, 0],
+        WideOp => vec![r.below(8), r.below(6), if r.chance(1, 2) { 0 } else { r.below(3) }],
     };
     Op::new(kind, &args)
 }
@@ -179,6 +180,7 @@ pub const MOVES: &[(OpKind, u32)] = &[
     (ConsumerRun, 3),
     (DropObj, 9),
     (ReleaseLoose, 3),
+    (WideOp, 3),
 ];
 
 const ITER_OPS: &[(OpKind, u32)] = &[
@@ -222,6 +224,7 @@ const HEAP_OPS: &[(OpKind, u32)] = &[
     (Fold, 2),
     (DropObj, 6),
     (ReleaseLoose, 1),
+    (WideOp, 3),
 ];
 
 const CALLBACK_OPS: &[(OpKind, u32)] = &[
@@ -239,6 +242,7 @@ const CALLBACK_OPS: &[(OpKind, u32)] = &[
     (IntoIter, 3),
     (ArrBox, 4),
     (DropObj, 3),
+    (WideOp, 6),
 ];
 
 const SERDE_OPS: &[(OpKind, u32)] = &[
@@ -258,6 +262,7 @@ pub fn callback_seams(kind: OpKind) -> &'static [Seam] {
         DefaultArr | DefaultBoxed => &[Seam::Default],
         CloneArr | ItClone | BxClone | BoxArrMacro | ItCloneFrom | CloneFromArr | NestClone => &[Seam::Clone],
         Collect => &[Seam::SrcNext],
+        WideOp => &[Seam::Closure, Seam::Closure, Seam::Clone, Seam::Default, Seam::SrcNext],
         _ => &[],
     }
 }
@@ -621,6 +626,9 @@ pub fn gen_trace(prop: Prop, seed: u64) -> Trace {
                 if op.kind == Collect {
                     op.args[3] = (3 + r.below(3)) << 1;
                 }
+                if op.kind == WideOp {
+                    op.args[0] = 5 + r.below(3);
+                }
             }
             (elem, ops)
         }
@@ -633,6 +641,9 @@ pub fn gen_trace(prop: Prop, seed: u64) -> Trace {
                 let mut op = next_op(r, &mut abs, HEAP_OPS);
                 let kind = op.kind;
                 let mut known_n: Option<u32> = None;
+                if kind == WideOp {
+                    op.args[0] = 5 + r.below(3);
+                }
                 if kind == Collect {
                     let nn = LENS[op.args[0] as usize] as u32;
                     op.args[3] = (3 + r.below(3)) << 1;
@@ -657,6 +668,46 @@ pub fn gen_trace(prop: Prop, seed: u64) -> Trace {
                     };
                     op.faults.push((seam, k));
                 }
+                ops.push(op);
+            }
+            // "no block stays allocated once all values are gone" is universal: a destructor that
+            // panics while an alloc-feature operation discards what it collected (or while a heap
+            // object is torn down) must not cost the crate's own block. The faulted operation is the
+            // last of the trace: elements that unwinding abandons may leak (C05), so conservation of
+            // element payloads is not judged for it, only the allocator's view of library blocks.
+            if r.chance(1, 5) {
+                let mut op = loop {
+                    let k = weighted(r, HEAP_OPS);
+                    if matches!(k, Collect | VecToArr | VecToBx | BxToVec | ArrToVec | BxIntoIter | DropObj | Map | Zip | Fold | WideOp) {
+                        break gen_op(r, k);
+                    }
+                };
+                let mut known_n: Option<u32> = None;
+                match op.kind {
+                    Collect => {
+                        let nn = LENS[op.args[0] as usize] as u32;
+                        op.args[3] = (3 + r.below(3)) << 1;
+                        op.args[1] = r.below(nn + 4);
+                        op.args[2] = r.pick(&[0u32, 1, 1, 2, 5, 6]);
+                        known_n = Some(nn);
+                    }
+                    WideOp => op.args[0] = 5 + r.below(3),
+                    Map | Fold => {
+                        op.args[2] = 3;
+                        known_n = with_fresh_operand(r, &mut ops, &mut op);
+                    }
+                    Zip => {
+                        op.args[3] = 9;
+                        known_n = with_fresh_operand(r, &mut ops, &mut op);
+                    }
+                    DropObj => op.args[0] = r.pick(&[2u32, 3, 5]),
+                    _ => known_n = with_fresh_operand(r, &mut ops, &mut op),
+                }
+                let k = match known_n {
+                    Some(n) if r.chance(1, 2) => fault_k_rel(r, n),
+                    _ => fault_k(r),
+                };
+                op.faults.push((Seam::Drop, k));
                 ops.push(op);
             }
             (elem, ops)
